@@ -352,7 +352,7 @@ def _is_none(rels, truth, t):
     return None
 
 
-@rule("PRUNESTATE", ["C06", "C05"])
+@rule("PRUNESTATE", ["C06", "C05", "C01"])
 def prunestate(ctx, pid):
     """The bookkeeping state of a pruning trie, as tables: what __init__ installs as the count table per
     (ref_count given?, prune?); what the ref_count accessor hands out; how a mutation session opens
